@@ -76,8 +76,8 @@ def run(rep, tier, seed):
     # the stream stage alone: every order relation of read size / chunk / container / buffer (StreamConc)
     from checks.c15 import conc_part
     conc_part(rep, tier)
-    SC.model_and_replay(rep, "r", SC.read_grid(tier), "c06_r_" + tier, ["DeadlockFree"], key="read")
-    SC.model_and_replay(rep, "w", SC.write_grid(tier), "c06_w_" + tier, ["DeadlockFree"], key="write")
+    SC.model_and_replay(rep, "r", SC.read_grid(tier), "c06_r_" + tier, ["DeadlockFree"], key="read", refine=True)
+    SC.model_and_replay(rep, "w", SC.write_grid(tier), "c06_w_" + tier, ["DeadlockFree"], key="write", refine=True)
     # M2: medium-size sessions under seeded schedules, every recorded step validated by TLC against the spec
     nt = 3 if tier == "quick" else 12
     SC.trace_validate(rep, "r", m2_read(tier), "c06_Tr_" + tier, seed, nt, ["QueueBounded", "NullIsLast"], key="read")
